@@ -423,7 +423,7 @@ pub fn worker(args: &Args, w: &Worker) -> i32 {
                 fork_sweep(w, p, depth, Kind::ClockManaged, 2, 1);
             } else {
                 // (own-big: the child is NOT cut and finishes the whole search - thorough only)
-                let kinds: &[Kind] = if thorough { &[Kind::Stop, Kind::ClockMovetime, Kind::ClockManaged, Kind::ClockOwnBig] } else { &[Kind::Stop, Kind::ClockMovetime, Kind::ClockManaged] };
+                let kinds: &[Kind] = if thorough && probe.nodes <= 12_000 { &[Kind::Stop, Kind::ClockMovetime, Kind::ClockManaged, Kind::ClockOwnBig] } else { &[Kind::Stop, Kind::ClockMovetime, Kind::ClockManaged] };
                 for &kind in kinds {
                     fork_sweep(w, p, depth, kind, 1, 0);
                 }
